@@ -16,6 +16,7 @@ import (
 	"os/exec"
 	"path/filepath"
 	"strings"
+	"sync"
 	"time"
 
 	vegeta "github.com/tsenart/vegeta/v12/lib"
@@ -39,7 +40,20 @@ func c18CLI(c *Ctx, run *ev.Run) {
 		run.Inconclusive(err.Error())
 		return
 	}
-	srv := &http.Server{Handler: http.HandlerFunc(func(w http.ResponseWriter, _ *http.Request) { fmt.Fprint(w, "ok") })}
+	// per request: the Host it was sent for and the local address it arrived on (which replacement was dialled)
+	type arrival struct{ host, local string }
+	var amu sync.Mutex
+	var arrivals []arrival
+	srv := &http.Server{Handler: http.HandlerFunc(func(w http.ResponseWriter, r *http.Request) {
+		local := ""
+		if a, ok := r.Context().Value(http.LocalAddrContextKey).(net.Addr); ok {
+			local, _, _ = net.SplitHostPort(a.String())
+		}
+		amu.Lock()
+		arrivals = append(arrivals, arrival{r.Host, local})
+		amu.Unlock()
+		fmt.Fprint(w, "ok")
+	})}
 	go srv.Serve(ln)
 	defer srv.Close()
 	_, port, _ := net.SplitHostPort(ln.Addr().String())
@@ -100,6 +114,36 @@ func c18CLI(c *Ctx, run *ev.Run) {
 					okHits++
 				}
 			}
+		}
+		// the options must all be in effect together: requests for the mapped source arrive, and
+		// they arrive over both replacement addresses
+		if strings.Contains(cs.Name, "connect-to") {
+			amu.Lock()
+			mapped, via2, viaOther := 0, 0, 0
+			for _, a := range arrivals {
+				if a.host == host+":1" {
+					mapped++
+					if a.local == "127.0.0.2" {
+						via2++
+					} else {
+						viaOther++
+					}
+				}
+			}
+			arrivals = nil
+			amu.Unlock()
+			det := map[string]any{"argv": args, "requests_for_mapped_source": mapped, "via_127.0.0.2": via2, "via_the_other_replacement": viaOther, "stderr": tail(stderr.String(), 500)}
+			switch {
+			case mapped == 0:
+				run.Violate("C18/cli-connect-to/not-applied/"+cs.Name, fmt.Sprintf("`vegeta attack %s`: no request for the mapped source %s:1 reached a replacement address", strings.Join(cs.Args, " "), host), det)
+			case via2 == 0 || viaOther == 0:
+				run.Violate("C18/cli-connect-to/replacement-unused/"+cs.Name, fmt.Sprintf("`vegeta attack %s`: %d requests for the mapped source, %d over 127.0.0.2 and %d over the other replacement", strings.Join(cs.Args, " "), mapped, via2, viaOther), det)
+			}
+			run.Count("cli_connect_to_requests_for_mapped_source", int64(mapped))
+		} else {
+			amu.Lock()
+			arrivals = nil
+			amu.Unlock()
 		}
 		run.Eval(1)
 		run.Count("cli_race_attacks", 1)
